@@ -142,7 +142,10 @@ func (reg *LWW) setValue(ctx context.Context, val []byte, priority uint64) error
 		return nil
 	} else if priority == curPrio {
 		curValue, err := reg.store.Get(ctx, key.Bytes())
-		if err != nil {
+		if errors.Is(err, corekv.ErrNotFound) {
+			// A nil value is represented by the absence of the key.
+			curValue = client.CborNil
+		} else if err != nil {
 			return err
 		}
 
